@@ -288,3 +288,7 @@ def run(repo: Repo, rep: Report, tier: str) -> None:
         rep.check(not bad13, "C06-R13", f"{f13.short}: signal dict {key13}",
                   f"type alternatives {[a[-60:] for a in t_alts]}" if not bad13 else "; ".join(bad13) +
                   ": e.g. `Signal x = (\"iron-plate\", 5); lamp.enable = x;` makes the lamp watch a virtual signal called iron-plate, which nothing ever sends", f13.loc(n))
+
+    # ---------------- R14 --------------------------------------------------------------
+    _borrow6(repo, rep, "C10", "C10-R3", "C06-R14", "two entities whose conditions differ (`a && b` against `a || b`, different comparators or operands) never share one decider: the "
+             "common-subexpression key of a decider reads every field of every condition row, and its output", select=lambda o: "IRDecider" in o.construct, floor=6)
